@@ -79,6 +79,35 @@ def s1(ck, an):
     extra = [k for k in appends if k not in expected]
     for k in extra:
         ck.note(f"extra history column appended: {k}")
+    # the history only grows: anywhere in the package, the only thing done to a book's history columns is `.append`
+    # (receiver by value id, so a column reached through `self.history.values()` / a local alias is seen)
+    shrink = {"pop", "remove", "clear", "insert", "popitem", "reverse", "sort", "extend", "__delitem__", "__setitem__"}
+    n_sites = 0
+    for f in an.functions():
+        if f.module.name.startswith("_fixture"):
+            continue
+        fx = an.fa(f)
+        for n in walk_function(f.node):
+            recv = None
+            what = None
+            if isinstance(n, ast.Call) and isinstance(n.func, ast.Attribute) and n.func.attr in shrink:
+                recv, what = n.func.value, f".{n.func.attr}()"
+            elif isinstance(n, ast.Delete):
+                for t in n.targets:
+                    if isinstance(t, ast.Subscript):
+                        recv, what = t.value, "del"
+            elif isinstance(n, ast.Subscript) and isinstance(n.ctx, ast.Store) and isinstance(n.value, ast.Subscript):
+                recv, what = n.value, "item assignment"          # history[col][i] = ...
+            if recv is None:
+                continue
+            nd = fx.cfg.node_of(n)
+            k_ = fx.sym.canon(recv, nd.id if nd is not None else None)
+            in_book_code = f.cls is not None and f.cls.name in ("LimitOrderBook", "Exchange") or f.module.name.endswith("exchange")
+            if ".history" in k_ and (in_book_code or "exchange[" in k_ or "_books" in k_):       # State / Feature have a `history` of their own: not this one
+                n_sites += 1
+                ck.fail("EFFECT", "S1.history-append-only", f.short, fx.loc(n), f"{what} on {k_[:80]}: accepted quotes are removed from / rewritten in the history", construct=stmt_text(n))
+    if not n_sites:
+        ck.ok("EFFECT", "S1.history-append-only", subj, fa.f.loc, "nothing in the package removes, reorders or rewrites entries of a book's history columns (only append)", construct="history append-only")
     # quote events carry the fields they were given
     summ = attribute_summary(an, an.prog.func("EventNBBO.__init__"))
     for fld in ["time", "contract", "bid_price", "ask_price", "bid_size", "ask_size"]:
